@@ -80,7 +80,18 @@ fn depth_of(prog: &[MP]) -> usize {
 
 fn check(genes: &[Gene], origin: &str, rep: &mut Report) {
     rep.eval();
-    let real = match convert(genes) {
+    // the translation may take the process down (runaway growth, stack exhaustion): mark the call
+    // so that the supervising parent can name the genome (long genomes only, the others are cheap
+    // to find again)
+    let mark = genes.len() >= 24;
+    if mark {
+        vh_core::shard::risky_begin(|| format!("{origin} genome of {} genes: {}", genes.len(), genes.iter().take(60).map(Gene::render).collect::<Vec<_>>().join(" ")));
+    }
+    let converted = convert(genes);
+    if mark {
+        vh_core::shard::risky_end();
+    }
+    let real = match converted {
         Ok(r) => r,
         Err(p) => {
             rep.violation("C05/panic", || {
@@ -229,6 +240,11 @@ fn deep_genome(g: &mut Xo, depth: usize) -> Vec<Gene> {
 }
 
 pub fn run(args: &Args) -> i32 {
+    // "never fails" includes not taking the process down: run as a supervised child under an
+    // address-space limit; an abnormal death while a genome is being translated is a violation
+    if let Some(code) = vh_core::shard::supervise("C05", &args.root, "C05/aborted-or-hung-while-translating", 12 << 30, std::time::Duration::from_secs(args.tier.pick(1_800, 7_200))) {
+        return code;
+    }
     let max_len = args.tier.pick(9usize, 11usize);
     // shards: (length, two-symbol prefix) for lengths >= 2; shorter lengths in shard 0
     let mut shards: Vec<(usize, Vec<usize>)> = vec![(0, vec![]), (1, vec![])];
